@@ -73,6 +73,10 @@ def _case(draw, tier="quick"):
         cmax = 1.4 if dtype == "float32" else 2.4
         J = build("svd", m, n, rng, {"cond": 10.0 ** draw(st.floats(0, cmax))})
         fam = "svd_full"
+        if m >= 2 and draw(st.sampled_from([True, False, False, False])):
+            # exactly-zero rows: rank deficient but numerically unambiguous (objectives that are already stationary)
+            J[rng.choice(m, size=int(rng.integers(1, m)), replace=False)] = 0.0
+            fam = "svd_full+zero_rows"
     else:
         fams = ["gauss", "gauss", "svd", "conflict", "stationary", "lowrank", "rowscaled3"]
         if name in TIE_OK:
@@ -133,6 +137,9 @@ def run_case(case) -> Outcome:
     if configured is not None:
         out.cls("equivariance")
     distinct_rows = len({tuple(r) for r in J.tolist()}) == m
+    if case["family"].endswith("+zero_rows"):
+        out.cls("zero-rows")
+        distinct_rows = True  # zero rows are exact duplicates of each other, but no score tie is involved for these aggregators
     if not distinct_rows and name not in TIE_OK:
         out.excluded = "duplicate-rows-for-tie-sensitive-aggregator"
         return out
